@@ -98,8 +98,12 @@ def declare_kernel(spec):
                       modifies=['K_alive'],
                       ensures=['kstep()', '0 <= result and result <= 3',
                                'implies(result == 1 or result == 2, not (self.pid in K_alive))',
-                               'implies(result == 0, self.pid in K_alive)'],
-                      note='T-PSUTIL Process.status: RUNNING(0) / DEAD_OR_ZOMBIE(1) / UNEXISTING(2) / OTHER(3)'))
+                               # RUNNING only says the worker had not terminated when the call began: psutil's
+                               # is_running() is True for a zombie, so a worker that dies between get_status() and
+                               # is_running() is still reported RUNNING
+                               'implies(result == 0, self.pid in old(K_alive))'],
+                      note='T-PSUTIL Process.status: RUNNING(0) / DEAD_OR_ZOMBIE(1) / UNEXISTING(2) / OTHER(3); DEAD/UNEXISTING '
+                           'imply terminated; RUNNING implies alive when the call began (is_running() is True for zombies)'))
 
 
 def declare_spawn(spec):
